@@ -47,9 +47,9 @@ PROPS = {
                 enums=['bounds'], configs_quick=['default', 'safe', 'zod'], design='7/C01'),
     'C02': dict(traits=None, part='all', count=True, theorems=['DW.C02_impl_list', 'DW.C02_delegation_same_bounds', 'DW.implPreds_shortcut', 'DW.C18_effect', 'DW.C09_fieldwise', 'DW.C06_skipped_never_mentioned', 'DW.C02_obligations', 'DW.C02_well_typed', 'DW.typeable_of_validated', 'DW.C02_type_checks', 'DW.C02_obligations_sub', 'DW.C02_preservation', 'DW.C02_never_stuck', 'DW.eval_progress', 'DW.eval_preserves', 'DW.NonVacuous.cxTotal', 'DW.matchPat_preserves', 'DW.applyFn_preserves', 'DW.NonVacuous.accepted', 'DW.NonVacuous.rawOK', 'DW.NonVacuous.implsOK'],
                 enums=None, configs_quick=['default', 'safe', 'zod', 'nightly'], diagnostics=True, design='7/C02'),
-    'C03': dict(traits=['PartialEq'], theorems=['DW.C03_validated', 'DW.C03_eq'], enums=['incomparable', 'skip', 'fieldopts'], configs_quick=['default', 'safe', 'zod', 'nightly'], design='7/C03'),
+    'C03': dict(traits=['PartialEq'], theorems=['DW.C03_validated', 'DW.C03_eq'], enums=['incomparable', 'skip', 'fieldopts', 'foreign'], configs_quick=['default', 'safe', 'zod', 'nightly'], design='7/C03'),
     'C04': dict(tables=True, traits=['PartialOrd', 'Ord'], theorems=['DW.C04_validated', 'DW.buildDiscriminants_spec', 'DW.C04_ord_refines', 'DW.C04_delegation', 'DW.C04_agree', 'DW.NonVacuous.tiOK', 'DW.NonVacuous.vals'],
-                enums=['discriminants', 'incomparable', 'skip', 'fieldopts'], configs_quick=['default', 'safe', 'nightly', 'zod'], design='7/C04'),
+                enums=['discriminants', 'incomparable', 'skip', 'fieldopts', 'foreign'], configs_quick=['default', 'safe', 'nightly', 'zod'], design='7/C04'),
     'C05': dict(tables=True, traits=['PartialEq', 'Eq', 'PartialOrd', 'Ord', 'Hash'],
                 theorems=['DW.C05_skip_uniform', 'DW.C05_skip_hash_superset', 'DW.C05_eq_iff_pcmp', 'DW.C05_eq_symm', 'DW.C05_eq_trans',
                           'DW.C05_lt_gt', 'DW.C05_lt_trans', 'DW.C05_eq_hash', 'DW.C04_agree'],
@@ -62,16 +62,16 @@ PROPS = {
     'C07': dict(traits=['PartialEq', 'PartialOrd'], theorems=['DW.C07_marked_eq', 'DW.C07_marked_pcmp', 'DW.C07_eq_eval', 'DW.C07_pcmp_eval',
                                                                'DW.C07_unaffected_eq', 'DW.C07_unaffected_pcmp'],
                 enums=['incomparable'], configs_quick=['default', 'safe', 'nightly', 'zod'], design='7/C07'),
-    'C08': dict(traits=['Hash'], theorems=['DW.C08_validated', 'DW.C08_transcript', 'DW.C08_iff'], enums=['skip', 'fieldopts'], configs_quick=['default', 'safe', 'zod'], design='7/C08'),
+    'C08': dict(traits=['Hash'], theorems=['DW.C08_validated', 'DW.C08_transcript', 'DW.C08_iff'], enums=['skip', 'fieldopts', 'foreign'], configs_quick=['default', 'safe', 'zod'], design='7/C08'),
     'C09': dict(tables=True, traits=['Clone', 'Copy'], theorems=['DW.C09_validated', 'DW.C09_fieldwise', 'DW.C09_shortcut', 'DW.C09_union', 'DW.C09_copy_marker'],
-                enums=['bounds', 'skip'], configs_quick=['default', 'safe', 'zod'], design='7/C09'),
-    'C10': dict(traits=['Debug'], theorems=['DW.C10_validated', 'DW.C10_transcript', 'DW.C10_names'], enums=['debug', 'skip', 'fieldopts'], configs_quick=['default', 'safe', 'zod'], design='7/C10'),
-    'C11': dict(traits=['Default'], theorems=['DW.C11_body', 'DW.C11_validated'], enums=['default'], configs_quick=['default', 'safe', 'zod'], design='7/C11'),
+                enums=['bounds', 'skip', 'foreign'], configs_quick=['default', 'safe', 'zod'], design='7/C09'),
+    'C10': dict(traits=['Debug'], theorems=['DW.C10_validated', 'DW.C10_transcript', 'DW.C10_names'], enums=['debug', 'skip', 'fieldopts', 'foreign'], configs_quick=['default', 'safe', 'zod'], design='7/C10'),
+    'C11': dict(traits=['Default'], theorems=['DW.C11_body', 'DW.C11_validated'], enums=['default', 'foreign'], configs_quick=['default', 'safe', 'zod'], design='7/C11'),
     'C12': dict(tables=True, traits=['PartialEq', 'PartialOrd', 'Ord'], theorems=['DW.C12_validated', 'DW.C12_no_ub_eq', 'DW.C12_no_ub_ord', 'DW.C12_safe_no_unsafe'],
                 enums=['incomparable', 'discriminants'], configs_quick=['default', 'safe', 'nightly', 'zod'], unsafe_scan=True, design='7/C12'),
     'C13': dict(traits=STD, theorems=['DW.C13_eq_cfg_independent', 'DW.C13_ord_cfg_independent', 'DW.C13_untouched_traits',
                                       'DW.C13_zeroize_inert', 'DW.C13_forgetDiscr'],
-                enums=['discriminants', 'incomparable'], configs_quick=ALL_CONFIGS, cross_config=True, design='7/C13'),
+                enums=['discriminants', 'incomparable', 'foreign'], configs_quick=ALL_CONFIGS, cross_config=True, design='7/C13'),
     'C14': dict(tables=True, traits=None, part='all', theorems=['DW.C14_no_method_calls', 'DW.C14_core_paths_rooted', 'DW.C14_trait_path', 'DW.C14_crate_option', 'DW.C14_fn_paths_rooted',
                                                 'DW.C14_simple_distinct', 'DW.C14_field_vs_simple', 'DW.C14_self_vs_other', 'DW.C14_binders_fresh', 'DW.C14_crate_anywhere', 'DW.C14_vocabulary', 'DW.C14_vocabulary_rejects', 'DW.C14_scope_words'],
                 enums=['debug', 'zeroize', 'names'], configs_quick=['default', 'zod', 'safe'], stage1=True, diagnostics=True, design='7/C14'),
@@ -193,7 +193,7 @@ def build_items(prop, tier, seed):
         items.append(('corpus:' + name, it))
     for name, it in enumerate_items.all_items(spec.get('enums')):
         items.append(('enum:' + name, it))
-    rng = random.Random(seed)
+    rng = random.Random(seed * 7919 + 13)       # its own stream: a longer enumerator must not shift the random items below
     # re-spelled / re-grouped copies of enumerator items: the same options in another order, split over several attributes
     # or merged into one, with trailing commas (what the documentation calls equivalent; the model decides)
     import copy as _copy
@@ -202,6 +202,7 @@ def build_items(prop, tier, seed):
     for name, it in rng.sample(base, min(len(base), 500 if tier == 'quick' else 2500)):
         c = _copy.deepcopy(it)
         items.append(('respelled:' + name[5:], _items.respell(rng, _items.regroup(rng, c), p=0.3)))
+    rng = random.Random(seed)
     n = 2500 if tier == 'quick' else 12000
     pm = spec.get('malformed', 0.2)
     for _ in range(n):
@@ -416,6 +417,7 @@ def run_a(prop, tier, seed, items):
     sigs, relevant_sigs = set(), set()
     outcomes = collections.Counter()
     streams = collections.Counter()
+    accepted = collections.defaultdict(lambda: [0, 0])       # stream (enumerator) -> [accepted by the macro, items]
     by_cfg = {}
     for cfg, hook, model, log, dt in results:
         if hook is None:
@@ -431,6 +433,10 @@ def run_a(prop, tier, seed, items):
                 streams[stream.split(':')[0]] += 1
             o = outcome(h)
             outcomes[cfg + ':' + o] += 1
+            if cfg == cfgs[-1]:
+                key = ':'.join(stream.split(':')[:2]) if stream.startswith('enum:') else stream.split(':')[0]
+                accepted[key][1] += 1
+                accepted[key][0] += o == 'ok'
             if m.startswith('bad-'):
                 out['harness_errors'].append('driver rejected an item: %s %s' % (m, it.sexp()[:200]))
                 continue
@@ -469,5 +475,8 @@ def run_a(prop, tier, seed, items):
     out['outcomes'] = dict(outcomes)
     out['message_only_differences'] = dict(count=len(MESSAGE_DIFFS), samples=MESSAGE_DIFFS[:3])
     out['streams'] = dict(streams)
+    # generator quality: how many items of each stream the macro accepts (in the last configuration of the run) -- an
+    # enumerator whose items are all rejected exercises only the error path (round 7: `fieldopts` was such a one)
+    out['accepted_by_stream'] = {k: '%d/%d' % (a, n) for k, (a, n) in sorted(accepted.items())}
     out['distinct_relevant'] = len(relevant_sigs)
     return out
